@@ -64,7 +64,12 @@ def run_case(rep, rng, ci, cfg, texts, recs_all):
             names_ = [t.name for t in dev.terminals]
             wopts = runs.make_options(td, solve_time=8 * dt_max, dt_init=dt_init, dt_max=dt_max, adaptive=True, save_every=50,
                                       terminal_psi=0.0, output_file=td + "/driven_before.h5")
-            runs.traced_solve(dev, wopts, A=0.3, currents={names_[0]: 1.0, names_[1]: -1.0, **{n_: 0.0 for n_ in names_[2:]}})
+            try:
+                runs.traced_solve(dev, wopts, A=0.3, currents={names_[0]: 1.0, names_[1]: -1.0, **{n_: 0.0 for n_ in names_[2:]}})
+            except Exception as e:  # noqa: BLE001
+                rep.violation(f"a driven problem with valid options (0 < dt_init <= dt_max) was refused: {type(e).__name__}: {e}"[:240],
+                              {"run": ci, **{k: str(v) for k, v in cfg.items()}, "dt_init": dt_init, "dt_max": dt_max})
+                return
         opts = runs.make_options(td, solve_time=cfg["steps"] * dt_max, dt_init=dt_init, dt_max=dt_max,
                                  adaptive=(np.bool_(cfg["adaptive"]) if ci % 2 else (1 if cfg["adaptive"] else 0)) if ci % 3 else cfg["adaptive"],
                                  adaptive_window=5, save_every=50, terminal_psi=None,
@@ -76,6 +81,10 @@ def run_case(rep, rng, ci, cfg, texts, recs_all):
                           "step does not follow the rule (dt_init for window+2 steps, then dt_max)",
                           {"run": ci, **{k: str(v) for k, v in cfg.items()}, "dt_init": dt_init, "dt_max": dt_max,
                            "dt_last": dts[-1], "dts_head": dts[:12]})
+            return
+        except Exception as e:  # noqa: BLE001
+            rep.violation(f"the undriven problem with valid options (0 < dt_init <= dt_max) was refused: {type(e).__name__}: {e}"[:240],
+                          {"run": ci, **{k: str(v) for k, v in cfg.items()}, "dt_init": dt_init, "dt_max": dt_max})
             return
         runs.report_threading(rep, solver_, {"run": ci})
     case = {"run": ci, **cfg, "sites": len(dev.mesh.sites), "dt_max": dt_max, "updates": len(dts), **{f"max_{k}": v for k, v in worst.items()}}
@@ -121,6 +130,9 @@ def run(rep: common.Report, tier: str, seed: int, replay=None) -> int:
         # jump to dt_max right after the warm-up window
         dict(gamma=10.0, u=5.79, adaptive=True, screening=False, holes=0, terminals=2, smooth=0, shape="box", steps=20, model=False,
              ratio=2e9),
+        # the other end of the range: the first step IS the maximum (dt_init == dt_max, adaptive on and off)
+        dict(gamma=10.0, u=5.79, adaptive=True, screening=False, holes=1, terminals=2, smooth=0, shape="box", steps=15, model=False, ratio=1),
+        dict(gamma=2.0, u=1.0, adaptive=False, screening=False, holes=0, terminals=2, smooth=0, shape="box", steps=10, model=False, ratio=1),
     ]
     if tier == "thorough":
         plans = plans * 3
